@@ -463,13 +463,15 @@ fn grid_case(t: Tier, scene: usize, r1: u32, ctx: &mut Ctx) {
 					0 | 11 => sound_rates(t).iter().map(|s| (*s as u64, 0)).collect(),
 					4 | 7 | 9 => delay_us(t).iter().flat_map(|d| (0..4).map(move |pl| (*d, pl))).collect(),
 					10 => (0..LFO_HZ.len() as u64).flat_map(|f| (0..LFO_WAVES.len()).map(move |wv| (f, wv))).collect(),
+					// a corner well below every device rate, and one above a sixth of the lowest (3 kHz at 8 kHz is 0.375 of the rate)
+					5 | 6 => vec![(1000, 0), (3000, 0)],
 					_ => vec![(0, 0)],
 				};
 				for (a, b) in variants {
 					ctx.evals += 1;
 					ctx.traces += 1;
 					ord += 1;
-					let what = || format!("scene {} [{}{}]: {}", SCENES[scene], if scene == 0 || scene == 11 { format!("sound rate {} Hz", a) } else if scene == 10 { format!("{} LFO at {} Hz mapped to a track volume of -12..0 dB", LFO_WAVES[b], LFO_HZ[a as usize]) } else if scene == 4 || scene == 7 || scene == 9 { format!("delay_time {} us on the {} track{}", a, PLACEMENTS[b], if scene == 7 { "; the rate returns to the first rate immediately before callback 6" } else { "" }) } else { String::new() }, "", p.text());
+					let what = || format!("scene {} [{}{}]: {}", SCENES[scene], if scene == 0 || scene == 11 { format!("sound rate {} Hz", a) } else if scene == 10 { format!("{} LFO at {} Hz mapped to a track volume of -12..0 dB", LFO_WAVES[b], LFO_HZ[a as usize]) } else if scene == 5 || scene == 6 { format!("corner / centre at {} Hz", a) } else if scene == 4 || scene == 7 || scene == 9 { format!("delay_time {} us on the {} track{}", a, PLACEMENTS[b], if scene == 7 { "; the rate returns to the first rate immediately before callback 6" } else { "" }) } else { String::new() }, "", p.text());
 					ctx.sample(ord, what);
 					let mut fails: Vec<(String, String)> = vec![];
 					let r = catch(|| match scene {
@@ -503,7 +505,7 @@ fn grid_case(t: Tier, scene: usize, r1: u32, ctx: &mut Ctx) {
 								scene_delay(&p, a, b, true, false, &mut fails)
 							}
 						}
-						_ => scene_corner(&p, scene == 6, &mut fails),
+						_ => scene_corner(&p, scene == 6, a as f64, &mut fails),
 					});
 					let obs = match r {
 						Ok(Ok(o)) => o,
@@ -843,6 +845,10 @@ fn windows(p: &Plan, starts: &[usize]) -> Vec<(usize, usize, u32, bool)> {
 }
 /// time between the impulse at `from` and its first echo (frames above 35 % of the impulse: exactly impulse + first echo)
 fn echo_time(rec: &Rec, from: usize, to: usize) -> Result<f64, String> {
+	echo_time_opt(rec, from, to, false)
+}
+/// `first_only`: later loud frames (second-order echoes of a nested network inside a long window) are not looked at
+fn echo_time_opt(rec: &Rec, from: usize, to: usize, first_only: bool) -> Result<f64, String> {
 	let peak = rec.v[from].abs();
 	if peak < 1e-3 || !peak.is_finite() {
 		return Err(format!("impulse not heard (sample {})", rec.v[from]));
@@ -851,6 +857,9 @@ fn echo_time(rec: &Rec, from: usize, to: usize) -> Result<f64, String> {
 	if hits == [from] {
 		// no echo inside the window (3.75 x delay_time or more): the echo is late
 		return Ok(f64::INFINITY);
+	}
+	if first_only && hits.len() >= 2 && hits[0] == from {
+		return Ok(rec.t[hits[1]] - rec.t[from]);
 	}
 	if hits.len() != 2 || hits[0] != from {
 		return Err(format!("expected the impulse and exactly one loud echo, found loud frames at offsets {:?} of {}", hits.iter().map(|h| h - from).collect::<Vec<_>>(), to - from));
@@ -923,7 +932,7 @@ fn scene_delay(p: &Plan, us: u64, placement: usize, roundtrip: bool, nested: boo
 		} else if roundtrip {
 			format!("after the rate changed and changed back, effect on the {} track", PLACEMENTS[placement])
 		} else if after { format!("after a rate change, effect on the {} track", PLACEMENTS[placement]) } else { format!("constant rate, delay {} one internal buffer", if short { "shorter than" } else { "at least" }) };
-		match echo_time(&rec, a, b) {
+		match echo_time_opt(&rec, a, b, nested) {
 			Err(e) => fails.push((format!("delay: unexpected echo pattern :: {}", feat), format!("{} (window at {} Hz)", e, rate))),
 			Ok(e) => {
 				seen = true;
@@ -1056,9 +1065,9 @@ fn scene_reverb(p: &Plan, fails: &mut Vec<(String, String)>) -> SceneObs {
 }
 
 /// |H(1 kHz)| / |H(0)| of the effect, from the impulse response in a window, by direct DFT
-fn corner_ratios(p: &Plan, eq: bool) -> Result<(Vec<(f64, u32, bool)>, World), String> {
+fn corner_ratios(p: &Plan, eq: bool, hz: f64) -> Result<(Vec<(f64, u32, bool)>, World), String> {
 	let ncb = NCB_FX;
-	let fx: Box<dyn Effect> = if eq { EqFilterBuilder::new(EqFilterKind::Bell, 1000.0, Decibels(12.0), 2.0).build().0 } else { FilterBuilder::new().mode(FilterMode::LowPass).cutoff(1000.0).build().0 };
+	let fx: Box<dyn Effect> = if eq { EqFilterBuilder::new(EqFilterKind::Bell, hz, Decibels(12.0), 2.0).build().0 } else { FilterBuilder::new().mode(FilterMode::LowPass).cutoff(hz).build().0 };
 	let mut pl = place(p, 1, ncb, fx)?;
 	warm(&mut pl.w)?;
 	let f = pl.fire.clone();
@@ -1075,7 +1084,7 @@ fn corner_ratios(p: &Plan, eq: bool) -> Result<(Vec<(f64, u32, bool)>, World), S
 		}
 		let (mut re, mut im, mut dc) = (0.0f64, 0.0f64, 0.0f64);
 		for i in a..b {
-			let ph = -2.0 * std::f64::consts::PI * 1000.0 * (i - a) as f64 * rec.dt[a];
+			let ph = -2.0 * std::f64::consts::PI * hz * (i - a) as f64 * rec.dt[a];
 			re += rec.v[i] as f64 * ph.cos();
 			im += rec.v[i] as f64 * ph.sin();
 			dc += rec.v[i] as f64;
@@ -1084,16 +1093,16 @@ fn corner_ratios(p: &Plan, eq: bool) -> Result<(Vec<(f64, u32, bool)>, World), S
 	}
 	Ok((out, pl.w))
 }
-fn scene_corner(p: &Plan, eq: bool, fails: &mut Vec<(String, String)>) -> SceneObs {
-	let reference = corner_ratios(&Plan { r1: 48000, r2: 48000, k: NONE, ibs: p.ibs }, eq)?.0[0].0;
-	let (got, w) = corner_ratios(p, eq)?;
+fn scene_corner(p: &Plan, eq: bool, hz: f64, fails: &mut Vec<(String, String)>) -> SceneObs {
+	let reference = corner_ratios(&Plan { r1: 48000, r2: 48000, k: NONE, ibs: p.ibs }, eq, hz)?.0[0].0;
+	let (got, w) = corner_ratios(p, eq, hz)?;
 	tap_verdict(&w, p, fails);
-	let name = if eq { "eq: gain of a +12 dB bell at its 1 kHz centre" } else { "filter: gain of a 1 kHz low-pass at its corner" };
+	let name = if eq { format!("eq: gain of a +12 dB bell at its {} kHz centre", hz / 1000.0) } else { format!("filter: gain of a {} kHz low-pass at its corner", hz / 1000.0) };
 	let mut oh = vec![];
 	for (g, rate, after) in got {
 		oh.push(q(g / reference - 1.0, 0.002));
 		if !(g / reference - 1.0).abs().le(&0.01) {
-			fails.push((format!("{} differs from the 48 kHz rendering :: {}", name, if after { "after a rate change" } else { "constant rate" }), format!("|H(1 kHz)|/|H(0)| = {:.5} at {} Hz, {:.5} at 48000 Hz", g, rate, reference)));
+			fails.push((format!("{} differs from the 48 kHz rendering :: {}", name, if after { "after a rate change" } else { "constant rate" }), format!("|H({} kHz)|/|H(0)| = {:.5} at {} Hz, {:.5} at 48000 Hz", hz / 1000.0, g, rate, reference)));
 		}
 	}
 	Ok((reference.is_finite() && reference > 0.0, hash64(&oh)))
